@@ -71,6 +71,15 @@ def conversions():
             st = SRC_TYPE[sk]
             rt = {"timestamp": "ts", "duration": "dur"}.get(tgt, tgt)
             C.append((f"{tgt}({sk})", call(tgt, rt, V(st)), sk))
+    # a conversion applied to the result of another one: when the inner conversion fails, so does the outer one (string() and
+    # type() accept any object -- also an error object, if the glue hands it over as a value)
+    inner = list(C[-1:-40:-1])
+    for lab, node, sk in [c for c in C if not c[0].startswith("rt ") and c[1].a[1].k == "var"]:
+        it = node.t
+        for outer in ("string", "double", "int", "uint", "bytes"):
+            if (outer, it) in (("string", "ts"), ("bytes", "int"), ("bytes", "uint"), ("bytes", "double"), ("bytes", "ts"), ("bytes", "dur"), ("double", "bytes"), ("int", "bytes"), ("uint", "bytes"), ("double", "ts"), ("double", "dur"), ("uint", "ts"), ("int", "dur"), ("uint", "dur")):
+                continue
+            C.append((f"nested {outer}({lab})", call(outer, outer, node), sk))
     return C
 
 
